@@ -1364,4 +1364,75 @@ theorem ofTensor_wellFormed {ν α : Type} [DecidableEq ν] (shape : Shape ν) (
     simp only [Option.some.injEq] at h1 h2
     omega
 
+/-! ### std's consumers over an enumerating iterator -/
+
+section Consumers
+variable {σ β : Type}
+
+theorem Enumerates_item_some {next : σ → Outcome (Option β × σ)} {s0 : σ} {total : Nat}
+    {item : Nat → Option β} {state : Nat → σ} (E : Enumerates next s0 total item state)
+    (k : Nat) (hk : k < total) : ∃ x, item k = some x := by
+  have := (E.some_iff k).mpr hk
+  cases h : item k with
+  | none => simp [h] at this
+  | some x => exact ⟨x, rfl⟩
+
+theorem drain_spec {next : σ → Outcome (Option β × σ)} {s0 : σ} {total : Nat}
+    {item : Nat → Option β} {state : Nat → σ} (E : Enumerates next s0 total item state)
+    (fuel k : Nat) :
+    drain next fuel (state k) =
+      .ok ((List.range' k (min fuel (total - k))).filterMap item,
+        state (k + min fuel (total - k + 1))) := by
+  induction fuel generalizing k with
+  | zero => simp [drain]
+  | succ fuel ih =>
+    rcases Nat.lt_or_ge k total with hk | hk
+    · obtain ⟨x, hx⟩ := Enumerates_item_some E k hk
+      have e1 : min (fuel + 1) (total - k) = min fuel (total - (k + 1)) + 1 := by omega
+      have e2 : k + 1 + min fuel (total - (k + 1) + 1) = k + min (fuel + 1) (total - k + 1) := by
+        omega
+      simp only [drain, E.step k, hx, ih (k + 1), e1, List.range'_succ, List.filterMap_cons, e2]
+    · have hn := E.item_none k hk
+      have e1 : min (fuel + 1) (total - k) = 0 := by omega
+      have e2 : k + min (fuel + 1) (total - k + 1) = k + 1 := by omega
+      rw [e1, e2]
+      simp [drain, E.step k, hn]
+
+theorem drain_length {next : σ → Outcome (Option β × σ)} {s0 : σ} {total : Nat}
+    {item : Nat → Option β} {state : Nat → σ} (E : Enumerates next s0 total item state)
+    (k n : Nat) (hn : k + n ≤ total) : ((List.range' k n).filterMap item).length = n := by
+  induction n generalizing k with
+  | zero => simp
+  | succ n ih =>
+    obtain ⟨x, hx⟩ := Enumerates_item_some E k (by omega)
+    simp only [List.range'_succ, List.filterMap_cons, hx, List.length_cons, ih (k + 1) (by omega)]
+
+theorem nthOf_spec {next : σ → Outcome (Option β × σ)} {s0 : σ} {total : Nat}
+    {item : Nat → Option β} {state : Nat → σ} (E : Enumerates next s0 total item state)
+    (j k : Nat) :
+    nthOf next j (state k) =
+      .ok (if k + j < total then item (k + j) else none,
+        state (k + min (j + 1) (total - k + 1))) := by
+  induction j generalizing k with
+  | zero =>
+    have e : k + min (0 + 1) (total - k + 1) = k + 1 := by omega
+    simp only [nthOf, E.step k, Nat.add_zero, e]
+    by_cases hk : k < total
+    · simp [hk]
+    · simp [hk, E.item_none k (by omega)]
+  | succ j ih =>
+    rcases Nat.lt_or_ge k total with hk | hk
+    · obtain ⟨x, hx⟩ := Enumerates_item_some E k hk
+      have e1 : k + 1 + min (j + 1) (total - (k + 1) + 1) = k + min (j + 1 + 1) (total - k + 1) := by
+        omega
+      have e2 : k + 1 + j = k + (j + 1) := by omega
+      simp only [nthOf, E.step k, hx, ih (k + 1), e1, e2]
+    · have hn := E.item_none k hk
+      have e1 : k + min (j + 1 + 1) (total - k + 1) = k + 1 := by omega
+      have e2 : ¬ k + (j + 1) < total := by omega
+      rw [e1]
+      simp [nthOf, E.step k, hn, e2]
+
+end Consumers
+
 end EasyMl.Iter
